@@ -14,7 +14,9 @@ Go source mirrored (function by function):
 
 Abstractions (deliberate; see notes/C05.md):
 
-* `batchVerifier.Verify` is the parameter predicate `verifyOk : Batch → Bool` (modelled in detail by C01–C03).
+* `batchVerifier.Verify` is the parameter predicate `verifyOk : St → Batch → Bool` – it may depend on the manager /
+  database state at the moment of the proposal, as the real verifier reads orders and accounts from the store
+  (modelled in detail by `PoolModel/Batch.lean`, C01–C03; `PoolProofs/C05Verify.lean` instantiates it).
 * opaque values are tokens: account keys, outpoints, tx outputs `(value, pkScript)`, node ids are `Nat`s.
 * signatures are ideal: a signature is the pair (key, message); the message is the *sighash preimage*
   `Preimage` – which parts of the transaction it contains is a function of the sighash type, whose value is
@@ -196,8 +198,8 @@ def checkMatches (db : DB) : List (Nonce × Node) → Option ValErr
       if isNodeIDAValidMatch node o.allowed o.notAllowed then checkMatches db rest else some .match
 
 /-- `manager.OrderMatchValidate`: pendingBatch is assigned only on the success path -/
-def validate (verifyOk : Batch → Bool) (s : St) (b : Batch) : St × Option ValErr :=
-  if !verifyOk b then (s, some .verify)
+def validate (verifyOk : St → Batch → Bool) (s : St) (b : Batch) : St × Option ValErr :=
+  if !verifyOk s b then (s, some .verify)
   else match checkMatches s.db b.matched with
     | some e => (s, some e)
     | none => ({ s with pending := some b }, none)
@@ -420,14 +422,14 @@ deriving DecidableEq, Repr
 def attachAux (s : St) (nonces : List Key) (prev : List Out) : St :=
   { s with pending := s.pending.map fun b => { b with nonces := nonces, prevOuts := prev } }
 
-def step (verifyOk : Batch → Bool) (s : St) : Op → St × Res
+def step (verifyOk : St → Batch → Bool) (s : St) : Op → St × Res
   | .validate b => let r := validate verifyOk s b; (r.1, .val r.2)
   | .sign f nonces prev => let r := batchSign (attachAux s nonces prev) f; (r.1, .sign r.2)
   | .finalize id mf => let r := finalize s id mf; (r.1, .fin r.2)
   | .unstage => (unstage s, .unstaged)
 
 /-- run a history, returning the state after it and the per-op results -/
-def run (verifyOk : Batch → Bool) : St → List Op → St × List Res
+def run (verifyOk : St → Batch → Bool) : St → List Op → St × List Res
   | s, [] => (s, [])
   | s, op :: ops =>
     let r := step verifyOk s op
